@@ -44,7 +44,7 @@ Proof. unfold nospace. apply forallb_app. Qed.
 Section Nat.
 Variable f : fam.
 Variable p : tok.
-Hypothesis Hp : nospace p = true.
+Hypothesis Hp : pname_ok p = true.
 Let sp := nat_is f None p.
 
 Lemma nat_is_wf : is_wf sp.
@@ -53,7 +53,8 @@ Proof.
   - intros x y Hx Hy _. destruct x, y; cbn in Hx, Hy; congruence.
   - intros x _. cbn. unfold nat_chain. discriminate.
   - intros x _. cbn. unfold nat_chain. discriminate.
-  - intros x _. cbn. unfold nat_chain. rewrite nospace_app, Hp. reflexivity.
+  - intros x _. cbn. unfold nat_chain. rewrite nospace_app, (pname_nospace p Hp). reflexivity.
+  - intros x _. cbn. unfold nat_chain. apply aname_app; [reflexivity | exact (pname_ascii p Hp) | discriminate].
   - intros x Hx. destruct x; cbn in Hx; try discriminate. cbn [is_nm is_jo is_to sp nat_is nat_jump slot_eqb].
     unfold jumps_to. rewrite jump_target_j. apply bytes_eqb_refl.
   - intros x Hx. destruct x; cbn in Hx; try discriminate. cbn [is_nm is_jp is_tp sp nat_is nat_jump slot_eqb].
@@ -211,7 +212,7 @@ Hypothesis Hm : c_method c = MNat.
 Hypothesis Ho : c_owner c = None.
 Hypothesis Hudp : c_udp c = false.
 Hypothesis Hwf : cfg_wf c = true.
-Hypothesis Hport : forall f, nospace (fc_port (fcfg c f)) = true.
+Hypothesis Hport : forall f, pname_ok (fc_port (fcfg c f)) = true.
 
 Definition nsp (f : fam) : ispec := nat_is f None (fc_port (fcfg c f)).
 Definition nAS (f : fam) : iprog := a_nat_setup (map snd (fc_body (fcfg c f))).
@@ -306,7 +307,7 @@ Proof. unfold jumps_to. rewrite jump_target_j. reflexivity. Qed.
 Section Tp.
 Variable f : fam.
 Variable p : tok.
-Hypothesis Hp : nospace p = true.
+Hypothesis Hp : pname_ok p = true.
 Let sp := tp_is f p.
 
 Lemma tp_names_ne x y : x <> y -> tp_nm p x <> tp_nm p y.
@@ -321,7 +322,9 @@ Proof.
   - intros x y _ _ E. destruct x, y; try reflexivity; exfalso; revert E; apply tp_names_ne; discriminate.
   - intros x _. destruct x; cbn; unfold tp_mark, tp_tproxy, tp_divert; discriminate.
   - intros x _. destruct x; cbn; unfold tp_mark, tp_tproxy, tp_divert; discriminate.
-  - intros x _. destruct x; cbn; unfold tp_mark, tp_tproxy, tp_divert; rewrite nospace_app, Hp; reflexivity.
+  - intros x _. destruct x; cbn; unfold tp_mark, tp_tproxy, tp_divert; rewrite nospace_app, (pname_nospace p Hp); reflexivity.
+  - intros x _. destruct x; cbn; unfold tp_mark, tp_tproxy, tp_divert;
+      (apply aname_app; [reflexivity | exact (pname_ascii p Hp) | discriminate]).
   - intros x _. cbn [is_nm is_jo is_to sp tp_is]. rewrite jumps_to_j.
     destruct x; cbn [slot_eqb tp_nm]; [apply bytes_eqb_refl | |]; apply beq_false;
       [apply (tp_names_ne S0 S1) | apply (tp_names_ne S0 S2)]; discriminate.
@@ -511,7 +514,7 @@ Variable c : cfg.
 Hypothesis Hm : c_method c = MTproxy.
 Hypothesis Hrep : c_repaired c = true.
 Hypothesis Hwf : cfg_wf c = true.
-Hypothesis Hport : forall f, nospace (fc_port (fcfg c f)) = true.
+Hypothesis Hport : forall f, pname_ok (fc_port (fcfg c f)) = true.
 Hypothesis Hord : forall f, fc_on (fcfg c f) = true ->
   tp_body_ordered (fc_port (fcfg c f)) (fc_body (fcfg c f)) = true.
 
